@@ -37,6 +37,7 @@ def run(ctx, res):
     deletion.indent_begins_behind_break(ctx, res, "C13.R6")
     deletion.scanner_tables(ctx, res, "C13.R7", mode="complete")
     indent_only_at_line_end(ctx, res, "C13.R8")
+    deletion.indent_found_is_returned(ctx, res, "C13.R9")
     empty_line_table(ctx, res, "C13.R3")
     prev_next_tables(ctx, res, "C13.R4")
     deletion.merged_before_delete(ctx, res, "C13.R5")
